@@ -105,6 +105,38 @@ def eval_soft(smt2, ids, theta, first_pos):
     return total
 
 
+def recompute_candidates(sfs, p0):
+    """Realizing sequences that execute some value-producing instruction more than once (found by making that
+    instruction free for the brute-force search): the programs on which a wrong weight of that instruction shows."""
+    out = []
+    b0 = sfs["init_progr_len"]
+    for u in sfs["user_instrs"]:
+        if u.get("storage") or not u["outpt_sk"]:
+            continue
+        r = R6.search(sfs, b0, sfs["max_sk_sz"], push0=p0, cost_override={u["id"]: (0, 0)}, max_states=60000)
+        w = r.get("witness_gas")
+        if w and w.count(u["id"]) >= 2 and w not in out:
+            out.append(w)
+    return out[:3]
+
+
+def pinned_is_model(smt2, ids, theta):
+    """Do the hard constraints of the emitted problem admit the program t_j := ids[j]?  (real z3, soft part removed)"""
+    from gsim.core import simsolver
+    inv = {v: k for k, v in theta.items()}
+    uf = "theta_" in smt2
+    pins = []
+    for j, i in enumerate(ids):
+        if i not in inv:
+            return None
+        pins.append("(assert (= t_%d %s))" % (j, ("theta_" + inv[i]) if uf and ("theta_" + inv[i]) in smt2 else inv[i]))
+    lines = [l for l in simsolver.strip_soft(smt2).split("\n") if not l.startswith("(get-") and not l.startswith("(check-sat") and not l.startswith("(exit")]
+    text = "\n".join(lines + pins + ["(check-sat)"])
+    reply = simsolver.z3_run(text, rlimit=20000000)
+    head = reply.strip().split("\n", 1)[0].strip()
+    return True if head == "sat" else False if head == "unsat" else None
+
+
 def gen_small(rw):
     r = rw.random()
     if r < 0.25:
@@ -124,6 +156,16 @@ def gen_small(rw):
         use = rw.choice([[("DUP1", None), ("ADD", None)], [("DUP1", None), ("SWAP2", None), ("POP", None)], [("DUP1", None), ("DUP3", None), ("LT", None)],
                          [("DUP1", None)], [("DUP1", None), ("MUL", None)]])
         return exp + use
+    if r < 0.6:
+        # recompute bait: the block itself computes an expensive value twice, so the bound leaves room both for the program
+        # that duplicates it and for the one that recomputes it -- two models that differ in how often the instruction runs
+        if rw.random() < 0.6:
+            op1 = rw.choice(["SLOAD", "BALANCE", "EXTCODESIZE", "BLOCKHASH", "MLOAD", "CALLDATALOAD", "EXTCODEHASH", "ISZERO", "NOT"])
+            body = [("DUP1", None), (op1, None), ("SWAP1", None), (op1, None)]
+        else:
+            op2 = rw.choice(["MUL", "EXP", "DIV", "SUB", "MOD", "ADD", "SDIV", "SIGNEXTEND", "LT"])
+            body = [("DUP2", None), ("DUP2", None), (op2, None), ("SWAP2", None), ("SWAP1", None), (op2, None)]
+        return body + rw.choice([[("ADD", None)], [], [("LT", None)], [("SWAP1", None)]])
     L = rw.choice([2, 3, 3, 4, 4, 5])
     return B.gen_block(rw, length=L, depth=rw.choice([0, 1, 2, 2, 3]), pseudo=False, ending=False, splits=False,
                        profile=rw.choice(["plain", "stack", "stack", "rules", "memory"]))
@@ -228,6 +270,24 @@ def judge(base, variants, blocks, crit, summ):
                             break
                         summ["evals"] += 1
                         consts.append((sv - seq_cost(sfs, r["ids"], crit, push0=p0), r["ids"]))
+                # ... and over programs that repeat an instruction, pinned into the emitted problem (they are models of its
+                # hard part exactly when z3 says so): sampled models almost never recompute a value, these always do
+                if consts and crit != "length":
+                    b0 = sfs["init_progr_len"]
+                    for w in recompute_candidates(sfs, p0):
+                        ids = list(w) + ["NOP"] * (b0 - len(w))
+                        if not R2.realizes(sfs, ids).ok:
+                            continue
+                        ok = pinned_is_model(rec["smt2"], ids, rec["theta"])
+                        summ["probes"]["pinned_" + {True: "model", False: "excluded", None: "unknown"}[ok]] = \
+                            summ["probes"].get("pinned_" + {True: "model", False: "excluded", None: "unknown"}[ok], 0) + 1
+                        if ok:
+                            try:
+                                sv = eval_soft(rec["smt2"], ids, rec["theta"], 0)
+                            except (KeyError, ValueError, TypeError):
+                                continue
+                            summ["evals"] += 1
+                            consts.append((sv - seq_cost(sfs, ids, crit, push0=p0), ids))
                 if consts and len(set(c for c, _ in consts)) > 1:
                     cause = "other"
                     if crit == "size":
